@@ -277,8 +277,14 @@ func readT(tr interface{ Read() ([]byte, error) }, d time.Duration) ([]byte, err
 
 func wsCase(h *lp.H, c cfg, descs []string) {
 	ca, cb := memPair()
-	A := websocket.New(websocket.Config{Conn: ca, NegotiationParams: c.params()})
-	B := websocket.New(websocket.Config{Conn: cb, NegotiationParams: c.params()})
+	// the local (pre-negotiation) configuration differs between the two ends and from what was negotiated: only the negotiated
+	// parameters may decide the mode and the window
+	baseA, baseB := compress.Config{}, compress.Config{Enable: true, Level: 3, WindowBits: 15}
+	if len(descs)%2 == 1 {
+		baseA, baseB = compress.Config{Enable: true, Level: 9, WindowBits: 12, DisableContextTakeover: true}, compress.Config{}
+	}
+	A := websocket.New(websocket.Config{Conn: ca, CompressConfig: baseA, NegotiationParams: c.params()})
+	B := websocket.New(websocket.Config{Conn: cb, CompressConfig: baseB, NegotiationParams: c.params()})
 	defer A.Close()
 	defer B.Close()
 	h.Op(fmt.Sprintf("cfg %d %d %d", b2i(c.enable), b2i(c.perMessage), c.bits), modeString(A.VerifCompressConfig()))
@@ -771,6 +777,46 @@ func main() {
 		h.Case(fmt.Sprintf("framing %d", i))
 		framingCase(h, rng)
 		h.Distinct(fmt.Sprintf("framing/%d", i))
+	}
+	// (B') every payload size of a stretch, and sizes around every power of two, through writeTo / decodeFrom (model: frame)
+	if !onlyReal {
+		h.Case("framing sizes")
+		var sizes []int
+		for n := 0; n <= 1100; n++ {
+			sizes = append(sizes, n)
+		}
+		for k := 11; k <= 17; k++ {
+			for d := -3; d <= 3; d++ {
+				sizes = append(sizes, 1<<uint(k)+d)
+			}
+		}
+		for _, n := range sizes {
+			d := fmt.Sprintf("lcg:%d:%d", n%997, n)
+			m := content(d)
+			for _, f := range framers {
+				var buf bytes.Buffer
+				cnt, err := f.write(&buf, m)
+				if err != nil || cnt != buf.Len() || buf.Len() != 4+len(m) {
+					h.Violate(fmt.Sprintf("%s writeTo of %d bytes: reported %d, wrote %d (err=%v)", f.name, len(m), cnt, buf.Len(), err))
+				}
+				if n <= 1100 || f.name == "quic" {
+					if n <= 64 || n%7 == 0 || (n >= 1016 && n <= 1030) {
+						h.Op("frame "+d, hex.EncodeToString(buf.Bytes()))
+					}
+				}
+				// two frames back to back must come out as two messages
+				buf.Write(buf.Bytes())
+				rd := &chunkReader{r: bytes.NewReader(buf.Bytes()), rng: rng}
+				for k := 0; k < 2; k++ {
+					got, _, err := f.decode(rd, false)
+					if err != nil || !bytes.Equal(got, m) {
+						h.Violate(fmt.Sprintf("%s: frame %d of two %d-byte messages written back to back decodes to %d bytes (err=%v)", f.name, k, len(m), len(got), err))
+						break
+					}
+				}
+			}
+		}
+		h.Distinct("framing-sizes")
 	}
 	// (C) in-memory pair: concurrent writers and big messages in every mode
 	for i, c := range []cfg{{}, {enable: true, perMessage: true, level: 6}, {enable: true, bits: 15, level: 6}, {enable: true, bits: 8, level: 1}, {enable: true, bits: 32, level: 9}, {enable: true, bits: 0, level: 3}} {
